@@ -63,9 +63,10 @@ class FakeFile:
     async def write(self, text):
         w = self.world
         await w.loop.pause('wal-write')
-        if w.faults and w.loop.choose('fault', 2, 'write'):
+        c = w.loop.choose('fault', w.faults, 'write') if w.faults else 0
+        if c:
             w.rec('wal', 'write-fault', str(self.path))
-            raise OSError('injected write error')
+            raise (OSError('injected write error') if c == 1 else RuntimeError('injected non-OS write error'))
         w.files.setdefault(str(self.path), []).append(text)
         w.rec('wal', 'written', str(self.path), w.by_id.get(_peek_id(text), '?'))
         return len(text)
@@ -86,9 +87,10 @@ class FakeAnyio:
         w = self.world
         w.opened += 1
         await w.loop.pause('wal-open')
-        if w.faults and w.loop.choose('fault', 2, 'open'):
+        c = w.loop.choose('fault', w.faults, 'open') if w.faults else 0
+        if c:
             w.rec('wal', 'open-fault', str(path))
-            raise OSError('injected open error')
+            raise (OSError('injected open error') if c == 1 else ValueError('injected non-OS open error'))
         if mode != 'a':
             w.rec('wal', 'bad-mode', mode)
         return FakeFile(w, path)
@@ -100,9 +102,10 @@ class _Parent:
 
     def mkdir(self, *a, **kw):
         w = self.world
-        if w.faults and w.loop.choose('fault', 2, 'mkdir'):
+        c = w.loop.choose('fault', 2, 'mkdir') if w.faults else 0
+        if c:
             w.rec('wal', 'mkdir-fault', self.path)
-            raise OSError('injected mkdir error')
+            raise (OSError('injected mkdir error') if c == 1 else PermissionError('injected mkdir permission error') if c == 2 else None)
 
 
 class WalPath(PurePosixPath):
@@ -119,7 +122,7 @@ class WalWorld(World):
         super().__init__(spec, loop)
         self.files: dict = {}
         self.opened = 0
-        self.faults = bool(spec.get('faults'))
+        self.faults = int(spec.get('faults') or 0)  # number of answers at each open/write fault point: 2 = {ok, OSError}, 3 = + a non-OSError exception
         self.payloads = spec.get('payloads', {})
         self.dumps: dict = {}
         seams.S.anyio = FakeAnyio(self)
@@ -142,6 +145,10 @@ class WalWorld(World):
         kw = {}
         if key in self.payloads:
             v = self.payloads[key]
+            if v == '__BAD_surrogate':
+                v = 'caf\udce9'
+            elif v == '__BAD_object':
+                v = object()
             kw = dict(data=v, extra_field=v, s=v if isinstance(v, str) else 'fixed', when=datetime(2031, 5, 6, 7, 8, 9, 123456, tzinfo=timezone.utc))
         e = W(name=nm, **kw)
         self.events[nm] = e
@@ -152,7 +159,12 @@ class WalWorld(World):
         r = super().result(verdict)
         r['files'] = {k: list(v) for k, v in self.files.items()}
         r['opened'] = self.opened
-        r['events_json'] = {nm: json.loads(e.model_dump_json()) for nm, e in self.events.items()}
+        r['events_json'] = {}
+        for nm, e in self.events.items():
+            try:
+                r['events_json'][nm] = json.loads(e.model_dump_json())
+            except Exception:  # unserialisable payload (family c17.unserialisable)
+                r['events_json'][nm] = None
         r['classes'] = {nm: type(e).__name__ for nm, e in self.events.items()}
         r['trace_key'] = (r['trace_key'], tuple(sorted(self.payloads)) and repr(sorted(self.payloads.items(), key=lambda kv: kv[0]))[:200])
         return r
@@ -180,6 +192,22 @@ def families(tier):
         hs = [dict(bus='A', pat='*', name='hw', prog=[('ret', 1)])]
         out.append(dict(prop='C17', family='c17.payloads', id=f'c17/payload-{i:04d}', cfg=dict(bound=0, cap=5, busy=False), payloads=payloads, params=dict(kind='payload'),
                         scn=dict(buses={'A': dict(wal='/wal/a.jsonl')}, order=['A'], handlers=hs, main=main, actors=[], forwards=[], settle=1.0)))
+    # (a2) payloads that cannot be serialised (lone surrogate from surrogateescape decoding, arbitrary object in an extra field): the write fails,
+    #      is reported, and must not affect processing or the other lines
+    class _Opaque:
+        pass
+    for bad_kind, shape in itertools.product(['surrogate', 'object'], ['flat', 'awaited_child', 'forwarded']):
+        names = ['A', 'B'] if shape == 'forwarded' else ['A']
+        buses = {'A': dict(wal='/wal/a.jsonl')}
+        if shape == 'forwarded':
+            buses['B'] = dict(wal='/wal/b.jsonl')
+        hs = [dict(bus='A', pat='*', name='hw', prog=[('ret', 1)]), dict(bus='A', pat='P', name='hp', prog=[('disp', 'A', 'W2', 'await')] if shape == 'awaited_child' else [('ret', 2)])]
+        if shape == 'forwarded':
+            hs.append(dict(bus='B', pat='*', name='hwB', prog=[('ret', 3)]))
+        main = [('disp', 'A', 'W1', 'await'), ('disp', 'A', 'P', 'await'), ('disp', 'A', 'W2', 'await') if shape != 'awaited_child' else ('pause',), ('disp', 'A', 'W3', 'await')]
+        out.append(dict(prop='C17', family='c17.unserialisable', id=f'c17/unser-{bad_kind}-{shape}', cfg=dict(bound=1, cap=400, window=0.25, max_targets=1), params=dict(kind='unserialisable'),
+                        payloads={'W1': 'fine', 'W2': '__BAD_' + bad_kind, 'W3': 'also fine'}, bad=['W2'],
+                        scn=dict(buses=buses, order=names, handlers=hs, main=main, actors=[], forwards=[('A', 'B')] if shape == 'forwarded' else [], settle=2.0)))
     # (b) histories
     cfg = dict(bound=3 if deep else 2, cap=30000 if deep else 1500, window=0.25, max_targets=1)
     for shape, walB, second in itertools.product(['aw_same', 'aw_other', 'ff_same', 'ff_other', 'fwd', 'raise', 'nested2'], (False, True), (False, True)):
@@ -216,7 +244,7 @@ def families(tier):
         if shape == 'fwd':
             hs += [dict(bus='B', pat='P', name='hpB', prog=[('ret', 3)]), dict(bus='B', pat='X', name='hxB', prog=[('ret', 3)])]
         main = [('disp', 'A', 'P', 'ff'), ('disp', 'A', 'X', 'ff'), ('idle', 'A')]
-        out.append(dict(prop='C17', family='c17.faults', id=f'c17/faults-{shape}', cfg=fcfg, faults=True, params=dict(kind='faults', shape=shape),
+        out.append(dict(prop='C17', family='c17.faults', id=f'c17/faults-{shape}', cfg=fcfg, faults=(3 if (deep or shape != 'fwd') else 2), params=dict(kind='faults', shape=shape),
                         scn=dict(buses=buses, order=names, handlers=hs, main=main, actors=[], forwards=[('A', 'B')] if shape == 'fwd' else [], settle=3.0)))
     return out
 
@@ -259,7 +287,8 @@ def oracle(spec, res):
             out.append(V('wal_affected_processing', f'{ev} did not complete (faults: {len(faults)})', kind=kind))
     # file contents
     ev_json = res['events_json']
-    id_to_name = {j['event_id']: nm for nm, j in ev_json.items()}
+    id_to_name = {j['event_id']: nm for nm, j in ev_json.items() if j}
+    bad_events = {nm for nm, j in ev_json.items() if j is None}
     for path, chunks in res['files'].items():
         bus = wal_of.get(path)
         text = ''.join(chunks)
@@ -311,7 +340,7 @@ def oracle(spec, res):
                 last_exit[ex[4]] = ex[0]
         processed = [e for (b, e) in accepted if b == bus and e in last_exit]
         if not faults:
-            missing = [e for e in processed if e not in seen]
+            missing = [e for e in processed if e not in seen and e not in bad_events]
             if missing:
                 out.append(V('missing_line', f'{path}: no line for {missing}', kind=kind))
             seen_h = [e for e in seen if e in last_exit]  # events without a harness handler on this bus have no observable processing instant
